@@ -238,6 +238,24 @@ def alter(bundle, alteration, sec_type=11):
                     return
             asb['params'].append([3, cb.enc({})])
         out = edit_asb(out, sec_type, func)
+    elif kind == 'res-attach':
+        # two coordinated changes: the original content of a target is written into the (normally nil) payload /
+        # ciphertext slot of its COSE message, and the target block itself is altered
+        holder = {}
+
+        def func(asb):
+            idx = alteration[1] % len(asb['targets'])
+            holder['num'] = asb['targets'][idx]
+            tgt = next(b for b in out['blocks'] if b['num'] == holder['num'])
+            rid, enc = asb['results'][idx][0]
+            msg = rc._py(cb.parse(bytes(enc)))
+            msg[2] = bytes.fromhex(tgt['data'])
+            asb['results'][idx][0] = [rid, cb.enc(msg)]
+        out = edit_asb(out, sec_type, func)
+        tgt = next(b for b in out['blocks'] if b['num'] == holder['num'])
+        data = bytearray(bytes.fromhex(tgt['data']) or b'\x00')
+        data[alteration[2] % len(data)] ^= 1 << (alteration[2] % 8)
+        tgt['data'] = bytes(data).hex()
     elif kind == 'res-drop':
         # the MAC / signature removed: the result list of the last target is taken off the results array
         out = edit_asb(out, sec_type, lambda asb: asb['results'].pop())
